@@ -45,6 +45,7 @@ def main():
     ap.add_argument("--tier", default="quick")
     ap.add_argument("-j", type=int, default=6)
     ap.add_argument("--props", default="")
+    ap.add_argument("--out", default="/tmp/seed_matrix.json")
     a = ap.parse_args()
     props = a.props.split(",") if a.props else [c["property_id"] for c in json.load(open(VERIF / "MANIFEST.json"))["checks"]]
     seeds = sorted(p for p in Path(a.dir).iterdir() if p.is_dir() and (p / "patch.diff").exists() and a.k in p.name)
@@ -58,7 +59,7 @@ def main():
             print(f"{name}: caught by {hits or '-'}" + (f"  analysis-error in {errs}" if errs else "") + ("" if own in hits or not hits else f"  (own property {own} silent)"))
             for p in hits + errs:
                 print(f"      {p}: {out[p][1]}")
-    json.dump(res, open("/tmp/seed_matrix.json", "w"), indent=1)
+    json.dump(res, open(a.out, "w"), indent=1)
 
 
 main()
